@@ -494,6 +494,23 @@ func c11Session(t *mon.T, d c11Desc) {
 		t.Violatef("session/WriteTo/error", "%v", err)
 		return
 	}
+	// regeneration must not depend on how the payload is delivered: sources that can hand out single
+	// bytes but cannot seek (bufio.Reader, bytes.Buffer), and a plain reader
+	pl := file[a.PayloadOff : a.PayloadOff+a.PayloadLen]
+	for k, src := range []io.Reader{bufio.NewReaderSize(bytes.NewReader(pl), 16+int(d.Seed&63)), bytes.NewBuffer(append([]byte{}, pl...)), lab.PlainReader{R: bytes.NewReader(pl)}} {
+		nm := []string{"bufio.Reader", "bytes.Buffer", "plain io.Reader"}[k]
+		other, oerr := carv2.GenerateIndex(src, genOpts...)
+		if oerr != nil {
+			t.Violatef("session/GenerateIndex("+nm+")/error", "GenerateIndex over the finished payload from a %s: %v", nm, oerr)
+			continue
+		}
+		var ob bytes.Buffer
+		_, _ = index.WriteTo(other, &ob)
+		if !bytes.Equal(ob.Bytes(), rb.Bytes()) {
+			t.Violatef("session/regenerate/source-dependence", "the index regenerated from a %s differs from the one regenerated from a bytes.Reader at byte %d", nm, lab.FirstDiff(ob.Bytes(), rb.Bytes()))
+		}
+		t.Cover("regenerated-from:" + nm)
+	}
 	flat, err := index.ReadFrom(bytes.NewReader(a.IndexBytes))
 	if err != nil {
 		t.Violatef("session/ReadFrom/error", "embedded (flattened) index unreadable: %v", err)
